@@ -290,6 +290,17 @@ class Ctx:
     def violation(self, sig, what, case=None, obs=None):
         self.violations.append(dict(sig=sig, what=what, case=case, obs=obs))
 
+    def growth(self, fn, *args):
+        """Run a phase that goes beyond the property's own replay (attached models). If it cannot reach a conclusion while the
+        property's replay has already produced violations on real-code behaviour, those stand: the phase's failure is recorded,
+        not raised (a broken tree often breaks the set-up of the extra phase as well)."""
+        try:
+            return fn(self, *args)
+        except Inconclusive as e:
+            if not self.violations:
+                raise
+            self.extra.setdefault("growth_phase_inconclusive", []).append(str(e)[:400])
+
     def finish(self, level, rule, *, exhaustive=False, level_ok=True):
         kf = [k for k in load_known_findings() if k.get("property") == self.prop and k.get("status") == "open"]
         fresh, known = [], {}
